@@ -214,6 +214,23 @@ Definition produce (o : dopts) (t : transport) (f : format) (p : pop) : option b
   | PSymDef l | PSymRef l => if is_binc f then Some (sym_view o t l) else None
   end.
 
+(* ---------- side Decoder (SelfExt) ---------- *)
+
+(* An extension whose tag is registered with SelfExt is decoded by a side Decoder of the
+   same Handle (so the same ZeroCopy) reading the extension's payload as ITS input []byte:
+   kInterfaceNaked (decode.go, valueTypeExt) and DecodeExt of msgpack / binc / simple.
+   The payload [xbs] is a view handed back by the outer reader; decoderBase.sideDecodeInput
+   copies it when ZeroCopy is on and it is not an input view (state < ViewZerocopy), because
+   the side Decoder's ZeroCopy results are views of whatever it is given. *)
+Definition side_input (o : dopts) (t : transport) : region :=
+  let '(r, ub, _) := readxb t LBig in
+  if zerocopy o && negb (noCopy (attachState o t ub)) then Fresh else r.
+
+(* a leaf the side Decoder (a bytes Decoder) keeps, seen from the outer Decoder:
+   "its input" is the payload *)
+Definition side_subst (o : dopts) (t : transport) (r : region) : region :=
+  match r with Input => side_input o t | _ => r end.
+
 (* ---------- what the consumers rely on ---------- *)
 
 (* memory that no later operation writes *)
